@@ -82,7 +82,7 @@ def cases(tier):
     cs.append(dict(kind='floorset-nets', nb2b=1, np2b=1))
     for st in NC.structs(tier):   # Netlist.write_yaml is the writer the legalisation and placement stages use for their output files
         cs.append(dict(kind='netlist', struct=st))
-    for s in NC.STRUCTS['quick'][:5]:
+    for s in NC.STRUCTS['quick'][:5] + NC.STRUCTS['quick'][9:]:   # incl. fixed terminals (bare and with a footprint)
         cs.append(dict(kind='rect-solution', struct=s))
     cs.append(dict(kind='rect-getnetlist', template='row2', n=2, maps=[1, 2], depths=[0, 0], transposed=0))
     cs.append(dict(kind='rect-getnetlist', template='L3', n=3, maps=[2, 3, 1], depths=[0, 0, 0], transposed=0))
